@@ -1,0 +1,11 @@
+//go:build verif
+
+package memefish
+
+// Hooks for the verification harness in /verif (build tag "verif"); never compiled otherwise.
+
+// VerifNextToken advances the lexer in the given mode (noPanic is the mode used by parser error recovery).
+func (l *Lexer) VerifNextToken(noPanic bool) { l.nextToken(noPanic) }
+
+// VerifErrors exposes the errors collected so far.
+func (p *Parser) VerifErrors() []*Error { return p.errors }
